@@ -205,6 +205,7 @@ function controlKinds() {
     ['slot-scope:dashed', (b) => [el('c', [], [el('d', [], [...b, text(E(id('uV')))], { slotScopes: [['u-v', undefined]] })])]],
     // a text node directly in the slot next to the slot-scoped element, and a slot-scoped element in a child without dynamic slots
     ['slot-scope:text-sibling', (b) => [el('c', [], [el('d', [], [...b, text(E(id('u')))], { slotScopes: [['u', undefined]] }), text('T', X)])]],
+    ['slot-scope:in-a-child-without-dynamic-slots', (b) => [el('k', [A.plain('p', Y)], [el('d', [A.plain('q', X)], [...b, text(X)], { slotScopes: [['u', undefined]] })])]],
     ['slot-scope:block', (b) => [el('c', [], [block([...b, text(E(id('u')))], { slotScopes: [['u', undefined]], slot: 's' })])]],
     ['block:slot-attr', (b) => [el('c', [], [block(b, { slot: 's' })])]],
     ['block:slot-attr-dynamic', (b) => [el('c', [], [block(b, { slot: X })])]],
